@@ -359,9 +359,13 @@ def fault_body(kex, alg, edit, info):
 
 
 def _clamped_string(data):
-    """(string, rest) read the way a length-clamping decoder (Message.get_binary) does."""
-    n = int.from_bytes(data[:4], "big")
-    return data[4:4 + n], data[4 + n:]
+    """(string, rest) read the way paramiko's Message.get_binary does: a length that overruns the
+    data is clamped to what is there, and (below 1 MiB) the result is zero-padded to that length."""
+    n = int.from_bytes(data[:4].ljust(4, b"\x00"), "big")
+    out = data[4:4 + n]
+    if len(out) < n < (1 << 20):
+        out = out + b"\x00" * (n - len(out))
+    return out, data[4 + n:]
 
 
 def lenient_sig_values(blob, alg):
@@ -437,8 +441,9 @@ def run_fault(acc, kex, alg, edit):
         acc.count("encoding_only:%s:%s" % (edit[1], info.get("part")))
         acc.note("accepted although a byte was altered: a length prefix of the trailing field of the "
                  "message (signature field / blob / ECDSA s inside it, gex g) inflated beyond the packet "
-                 "end or by one zero-padded byte; the client computed the genuine K/H and verified the "
-                 "genuine signature value under the genuine key - no field value changed")
+                 "end, or changed by one where Message.get_bytes' zero padding restores the same value "
+                 "(e.g. a signature whose last byte is 0); the client computed the genuine K/H and "
+                 "verified the genuine signature value under the genuine key - no field value changed")
     elif accepted:
         acc.violation(fault_key(kex, alg, edit, info),
                       {"case": case, "start_client_error": repr(v["err"]), "kex_done": v["kex_done"],
